@@ -2,6 +2,8 @@ package rules
 
 import (
 	"fmt"
+	"go/ast"
+	"go/token"
 	"go/types"
 	"strings"
 
@@ -71,4 +73,339 @@ func c11_4(c *core.Ctx, p *core.Prog) {
 			}
 		})
 	}
+}
+
+func init() {
+	core.Describe("C11",
+		"Static necessary conditions of bounded concurrency, drain on shutdown and race freedom, decided on the batch processor's code: "+
+			"C11.1 a semaphore exists iff max_concurrency>0 and is sized by it; every export goroutine is spawned only after Acquire(·,1) under the same nil test, with a context that cannot be cancelled by a caller (or with the error handled); the goroutine defers Release(1) under that test before anything else; "+
+			"C11.2 every go statement of the package is preceded by WaitGroup.Add(1) and its target defers Done() before anything that can leave it; Shutdown closes the shutdown channel and then waits; "+
+			"C11.3 every field of a package struct that is written after construction is either confined to one goroutine root or accessed only with a common mutex held (must-held lockset over the CFG; roots = exported methods, go targets, registered callbacks); "+
+			"C11.4 every channel send of the export goroutine is raced with the same contributor's ctx.Done(); "+
+			"C11.5 (= C05.6) the shard loop returns on shutdown after draining and flushing. "+
+			"NOT decided: deadlock freedom in general, leaks of callers, races inside pdata / the otel SDK / the semaphore. A necessary-condition race check, not a proof.",
+		"sync.WaitGroup, sync.Mutex, semaphore.Weighted behave as documented")
+	register("C11", &core.Rule{ID: "C11.1", Title: "semaphore: exists iff configured; acquire before spawn; release deferred first", Mod: core.ModCBP, Floor: 4, Run: c11_1})
+	register("C11", &core.Rule{ID: "C11.2", Title: "wait group covers every goroutine; Shutdown closes then waits", Mod: core.ModCBP, Floor: 5, Run: c11_2})
+	register("C11", &core.Rule{ID: "C11.3", Title: "shared fields are confined to one goroutine or lock-protected", Mod: core.ModCBP, Floor: 10, Run: c11_3})
+	register("C11", &core.Rule{ID: "C11.4", Title: "sends in the export goroutine are cancellable by the same contributor", Mod: core.ModCBP, Floor: 1, Run: c11_4})
+	register("C11", &core.Rule{ID: "C11.5", Title: "shard loop drains, flushes and returns on shutdown", Mod: core.ModCBP, Floor: 3, Run: c05_6})
+}
+
+func semField(m *cbpMore) *types.Var {
+	if m.procType == nil {
+		return nil
+	}
+	st := m.procType.Underlying().(*types.Struct)
+	for i := 0; i < st.NumFields(); i++ {
+		if core.TypePkgPath(st.Field(i).Type()) == "golang.org/x/sync/semaphore" {
+			return st.Field(i)
+		}
+	}
+	return nil
+}
+
+func wgField(m *cbpMore) *types.Var {
+	if m.procType == nil {
+		return nil
+	}
+	st := m.procType.Underlying().(*types.Struct)
+	for i := 0; i < st.NumFields(); i++ {
+		if core.TypePkgPath(st.Field(i).Type()) == "sync" && core.TypeName(st.Field(i).Type()) == "WaitGroup" {
+			return st.Field(i)
+		}
+	}
+	return nil
+}
+
+// semNilEdges: CFG edges taken when the semaphore is nil.
+func semNilEdges(fn *ssa.Function, sem *types.Var) map[core.Edge]bool {
+	cut := map[core.Edge]bool{}
+	for _, b := range fn.Blocks {
+		iff := core.IfOf(b)
+		if iff == nil {
+			continue
+		}
+		cmp, ok := iff.Cond.(*ssa.BinOp)
+		if !ok || !core.IsNilConst(cmp.Y) || !isFieldLoad(cmp.X, sem) {
+			continue
+		}
+		if cmp.Op == token.NEQ {
+			cut[core.Edge{From: b, To: b.Succs[1]}] = true
+		} else if cmp.Op == token.EQL {
+			cut[core.Edge{From: b, To: b.Succs[0]}] = true
+		}
+	}
+	return cut
+}
+
+func c11_1(c *core.Ctx, p *core.Prog) {
+	a := newCBPAnchors(p)
+	if !a.ok(c) {
+		return
+	}
+	m := a.more()
+	if !m.ok(c) {
+		return
+	}
+	sem := semField(m)
+	if sem == nil {
+		c.Viol("sem|field", "?", "", "the processor has no semaphore field: max_concurrency is not enforced")
+		return
+	}
+	// (a) creation guard in the constructor
+	var mk *ssa.Call
+	core.EachInstr(m.ctorFn, func(i ssa.Instruction) {
+		if cl, ok := i.(*ssa.Call); ok && core.IsPkgFunc(core.CalleeObj(cl), "golang.org/x/sync/semaphore", "NewWeighted") {
+			mk = cl
+		}
+	})
+	if mk == nil {
+		c.Viol("sem|create", p.Pos(m.ctorFn.Pos()), core.FuncName(m.ctorFn), "no semaphore is ever created: max_concurrency is not enforced")
+	} else {
+		pos := p.Pos(mk.Pos())
+		conds, g, cx, err := guardAtPos(p, mk.Pos())
+		// the config field tagged max_concurrency
+		var maxObj types.Object
+		pk := p.Pkg(core.CBPPath)
+		for _, name := range pk.Types.Scope().Names() {
+			if tn, ok := pk.Types.Scope().Lookup(name).(*types.TypeName); ok {
+				if st, ok := tn.Type().Underlying().(*types.Struct); ok {
+					for i := 0; i < st.NumFields(); i++ {
+						if strings.Contains(st.Tag(i), `mapstructure:"max_concurrency"`) {
+							maxObj = st.Field(i)
+						}
+					}
+				}
+			}
+		}
+		if err != nil || cx || maxObj == nil {
+			c.Undecided("sem|create", pos, core.FuncName(m.ctorFn), "path condition of semaphore creation not recognised")
+		} else {
+			g.Roles = func(obj types.Object, e ast.Expr) (string, bool) {
+				if obj == maxObj {
+					return "maxc", true
+				}
+				return "", false
+			}
+			ok, w, _, err := compareGuard(g, conds, []string{"maxc"}, []int64{0, 1, 2, 3}, func(env map[string]int64) bool { return env["maxc"] > 0 }, "equiv")
+			if err != nil {
+				c.Undecided("sem|create", pos, core.FuncName(m.ctorFn), err.Error())
+			} else {
+				sized := core.DerivesFrom(mk.Call.Args[0], func(v ssa.Value) bool {
+					fa, ok := v.(*ssa.FieldAddr)
+					return ok && types.Object(core.FieldVar(fa)) == maxObj
+				})
+				if _, isC := core.ConstInt(mk.Call.Args[0]); isC {
+					sized = false
+				}
+				c.Check(ok && sized, "sem|create", pos, core.FuncName(m.ctorFn), "a semaphore exists iff max_concurrency>0 and is sized by it",
+					"semaphore creation guard "+condString(conds)+" / size differs from 'max_concurrency>0, weight max_concurrency' ("+w+")")
+			}
+		}
+		stored := false
+		for _, r := range core.Referrers(mk) {
+			if s, ok := r.(*ssa.Store); ok {
+				if fa, ok := s.Addr.(*ssa.FieldAddr); ok && core.FieldVar(fa) == sem {
+					stored = true
+				}
+			}
+		}
+		c.Check(stored, "sem|stored", pos, core.FuncName(m.ctorFn), "the semaphore is stored in the processor", "the created semaphore is not stored in the processor's semaphore field")
+	}
+	// (b) acquire precedes the go statement
+	fn := a.sendFn
+	isAcquire := func(i ssa.Instruction) bool {
+		cl, ok := i.(*ssa.Call)
+		return ok && core.IsMethodOf(core.CalleeObj(cl), "golang.org/x/sync/semaphore", "Weighted", "Acquire") && isFieldLoad(cl.Call.Args[0], sem)
+	}
+	ok, _ := (core.PathQuery{Fn: fn, To: a.goInstr, Avoid: isAcquire, CutEdges: semNilEdges(fn, sem)}).Exists()
+	c.Check(!ok, "sem|acquire-before-go", p.Pos(a.goInstr.Pos()), core.FuncName(fn), "every path to the export go statement acquires the semaphore unless it is nil",
+		"a path reaches the export go statement without acquiring the configured semaphore: more than max_concurrency exports can be in flight")
+	core.EachInstr(fn, func(i ssa.Instruction) {
+		if !isAcquire(i) {
+			return
+		}
+		cl := i.(*ssa.Call)
+		pos := p.Pos(cl.Pos())
+		w, isC := core.ConstInt(cl.Call.Args[2])
+		c.Check(isC && w == 1, "sem|acquire-weight", pos, core.FuncName(fn), "Acquire weight 1", "the export slot is not acquired with weight 1")
+		org := a.ctxOriginsDeep(cl.Call.Args[1], 0)
+		cancellable := len(org["caller"]) > 0 || len(org["param"]) > 0 || len(org["unknown"]) > 0
+		used := false
+		for _, r := range core.Referrers(cl) {
+			if _, isDbg := r.(*ssa.DebugRef); !isDbg {
+				used = true
+			}
+		}
+		switch {
+		case !cancellable:
+			c.OK("sem|acquire-ctx", pos, core.FuncName(fn), "Acquire uses a context no caller can cancel")
+		case used:
+			c.Undecided("sem|acquire-ctx", pos, core.FuncName(fn), "Acquire uses a cancellable context and its error is consumed: handling not analysed")
+		default:
+			c.Viol("sem|acquire-ctx", pos, core.FuncName(fn), "Acquire is given a caller's (cancellable) context and its error is ignored: when that context is done the slot is not acquired but the export goroutine starts anyway (and later releases a slot it never held)")
+		}
+	})
+	// (c) release deferred first in the goroutine
+	ex := a.exportFn
+	isDeferRelease := func(i ssa.Instruction) bool {
+		d, ok := i.(*ssa.Defer)
+		return ok && core.IsMethodOf(core.CalleeObj(d), "golang.org/x/sync/semaphore", "Weighted", "Release") && isFieldLoad(d.Call.Args[0], sem)
+	}
+	var firstOther ssa.Instruction
+	// any call / return / send / select reachable from entry without passing the deferred release (sem non-nil)
+	leak := false
+	for _, b := range ex.Blocks {
+		for _, i := range b.Instrs {
+			switch y := i.(type) {
+			case *ssa.Call, *ssa.Return, *ssa.Panic, *ssa.Select, *ssa.Send, *ssa.Go:
+				if cl, ok := y.(*ssa.Call); ok {
+					if _, isB := cl.Call.Value.(*ssa.Builtin); isB {
+						continue
+					}
+				}
+				if r, ok := y.(*ssa.Return); ok && r.Block().Comment == "recover" {
+					continue
+				}
+				if ok, _ := (core.PathQuery{Fn: ex, To: i, Avoid: isDeferRelease, CutEdges: semNilEdges(ex, sem)}).Exists(); ok {
+					leak = true
+					if firstOther == nil {
+						firstOther = i
+					}
+				}
+			}
+		}
+	}
+	msg := "the export goroutine defers Release under the nil test before any call or exit"
+	bad := "the export goroutine can run a call or leave before Release is deferred (semaphore non-nil): a panic or early exit leaks a slot and eventually blocks all exports"
+	if firstOther != nil {
+		bad += " (first such instruction at " + p.Pos(firstOther.Pos()) + ")"
+	}
+	c.Check(!leak, "sem|release-deferred", p.Pos(ex.Pos()), core.FuncName(ex), msg, bad)
+	core.EachInstr(ex, func(i ssa.Instruction) {
+		if isDeferRelease(i) {
+			w, isC := core.ConstInt(i.(*ssa.Defer).Call.Args[1])
+			c.Check(isC && w == 1, "sem|release-weight", p.Pos(i.Pos()), core.FuncName(ex), "Release weight 1", "the export slot is released with a weight other than the 1 that was acquired")
+		}
+	})
+}
+
+func c11_2(c *core.Ctx, p *core.Prog) {
+	a := newCBPAnchors(p)
+	if !a.ok(c) {
+		return
+	}
+	m := a.more()
+	if !m.ok(c) {
+		return
+	}
+	wg := wgField(m)
+	if wg == nil {
+		c.Viol("wg|field", "?", "", "the processor has no WaitGroup: Shutdown cannot wait for its goroutines")
+		return
+	}
+	isWG := func(v ssa.Value) bool {
+		fa, ok := v.(*ssa.FieldAddr)
+		return ok && core.FieldVar(fa) == wg
+	}
+	isAdd := func(i ssa.Instruction) bool {
+		cl, ok := i.(*ssa.Call)
+		if !ok || !core.IsMethodOf(core.CalleeObj(cl), "sync", "WaitGroup", "Add") || !isWG(cl.Call.Args[0]) {
+			return false
+		}
+		k, isC := core.ConstInt(cl.Call.Args[1])
+		return isC && k == 1
+	}
+	isDeferDone := func(i ssa.Instruction) bool {
+		d, ok := i.(*ssa.Defer)
+		return ok && core.IsMethodOf(core.CalleeObj(d), "sync", "WaitGroup", "Done") && isWG(d.Call.Args[0])
+	}
+	n := 0
+	for _, fn := range cbpFuncs(c, p) {
+		core.EachInstr(fn, func(i ssa.Instruction) {
+			g, ok := i.(*ssa.Go)
+			if !ok {
+				return
+			}
+			n++
+			key := fmt.Sprintf("go#%d@%s", n, core.FuncName(fn))
+			pos := p.Pos(g.Pos())
+			pre := core.MustPassBetween(fn, nil, g, isAdd)
+			// exactly one Add per go: no path passes two Adds before the go — approximated by counting
+			adds := 0
+			core.EachInstr(fn, func(j ssa.Instruction) {
+				if isAdd(j) && core.Reachable(fn, j, g) {
+					adds++
+				}
+			})
+			c.Check(pre && adds == 1, key+"|add", pos, core.FuncName(fn), "go statement preceded by exactly one WaitGroup.Add(1)",
+				fmt.Sprintf("the go statement is not preceded by exactly one WaitGroup.Add(1) on every path (adds reaching it: %d): Shutdown can return while the goroutine still runs, or wait forever", adds))
+			// target
+			var tgt *ssa.Function
+			switch v := g.Call.Value.(type) {
+			case *ssa.MakeClosure:
+				tgt, _ = v.Fn.(*ssa.Function)
+			case *ssa.Function:
+				tgt = v
+			}
+			if tgt == nil {
+				tgt = g.Call.StaticCallee()
+			}
+			if tgt == nil || tgt.Blocks == nil {
+				c.Undecided(key+"|done", pos, core.FuncName(fn), "go target not resolved")
+				return
+			}
+			leak := false
+			var first ssa.Instruction
+			for _, b := range tgt.Blocks {
+				for _, j := range b.Instrs {
+					switch y := j.(type) {
+					case *ssa.Call, *ssa.Return, *ssa.Panic, *ssa.Select, *ssa.Send, *ssa.Go:
+						if cl, ok := y.(*ssa.Call); ok {
+							if _, isB := cl.Call.Value.(*ssa.Builtin); isB {
+								continue
+							}
+						}
+						if r, ok := y.(*ssa.Return); ok && r.Block().Comment == "recover" {
+							continue
+						}
+						if ok, _ := (core.PathQuery{Fn: tgt, To: j, Avoid: isDeferDone}).Exists(); ok {
+							leak = true
+							if first == nil {
+								first = j
+							}
+						}
+					}
+				}
+			}
+			bad := "the goroutine can run a call or leave before Done() is deferred: a panic or early exit makes Shutdown wait forever"
+			if first != nil {
+				bad += " (first such instruction at " + p.Pos(first.Pos()) + ")"
+			}
+			c.Check(!leak, key+"|done", p.Pos(tgt.Pos()), core.FuncName(tgt), "the goroutine defers WaitGroup.Done() before any call or exit", bad)
+		})
+	}
+	// Shutdown: close then Wait
+	fn := m.shutdownFn
+	var closeI, waitI ssa.Instruction
+	core.EachInstr(fn, func(i ssa.Instruction) {
+		cl, ok := i.(*ssa.Call)
+		if !ok {
+			return
+		}
+		if b, ok := cl.Call.Value.(*ssa.Builtin); ok && b.Name() == "close" {
+			closeI = i
+		}
+		if core.IsMethodOf(core.CalleeObj(cl), "sync", "WaitGroup", "Wait") && isWG(cl.Call.Args[0]) {
+			waitI = i
+		}
+	})
+	pos := p.Pos(fn.Pos())
+	okS := closeI != nil && waitI != nil && core.MustPassBetween(fn, closeI, nil, func(i ssa.Instruction) bool { return i == waitI }) && core.MustPassBetween(fn, nil, nil, func(i ssa.Instruction) bool { return i == closeI })
+	c.Check(okS, "shutdown|close-then-wait", pos, core.FuncName(fn), "Shutdown closes the shutdown channel and then waits for the wait group on every path",
+		"Shutdown does not close the shutdown channel and then Wait() on every path: it can return while shard loops or exports still run")
+	// Shutdown is the component's Shutdown(ctx) error
+	isShut := fn.Name() == "Shutdown" || sigIs(fn.Object().(*types.Func), []tp{isCtx}, []tp{isErr})
+	c.Check(isShut, "shutdown|entry", pos, core.FuncName(fn), "the channel is closed by the component's Shutdown", "the shutdown channel is closed somewhere other than the component's Shutdown(ctx) error")
 }
